@@ -25,7 +25,7 @@ OUTCOMES_OK = ['done']
 OUTCOMES_FAIL = ['failed', 'raise', 'raise_value', 'raise_type', 'raise_exit']
 OUTCOMES_MALFORMED = ['none', 'nonpair', 'triple', 'badstatus_str', 'badstatus_int',
                       'badupdate_int', 'badupdate_list', 'badupdate_emptylist', 'badupdate_zero',
-                      'badupdate_emptystr']
+                      'badupdate_emptystr', 'partial_clash']
 # updates that are mappings but cannot be merged into the environment (C03 only: whether the
 # merge fails depends on which task publishes first, so C01/C02 have no schedule-free model)
 OUTCOMES_UNMERGEABLE = ['clash_scalar', 'clash_mapping', 'ownsection_scalar']
@@ -38,6 +38,7 @@ class ProbeError(Exception):
 
 
 SHARED = 'shared-results'     # a top-level key that every probe task contributes to
+CONST = 'constant'            # a top-level scalar put in the initial environment (see prepare)
 
 
 def expected_update(name, version):
@@ -141,6 +142,11 @@ class Probe(Task):
             return 3, TaskStatus.DONE
         if kind == 'badupdate_list':
             return [1, 2], TaskStatus.DONE
+        if kind == 'partial_clash':
+            # a complete, well-formed update followed by an entry that can never be merged (a
+            # mapping for a top-level key that holds a scalar since before the run): whatever is
+            # applied of it, the task cannot be seen as DONE -- it fails, whatever the schedule
+            return dict(update, **{CONST: {'k': 1}}), TaskStatus.DONE
         if kind == 'clash_scalar':             # two tasks disagree about the type of a shared key
             return {'clash': 3}, TaskStatus.DONE
         if kind == 'clash_mapping':
@@ -368,6 +374,8 @@ def prepare(case, envmod):
     for key, status in sorted((case.get('init') or {}).items()):
         idx = int(key)
         env[tasks[idx].name] = initial_entry(tasks[idx].name, status, -10 + 2 * idx)
+    if 'partial_clash' in case['outcomes']:
+        env[CONST] = 3
     if case.get('reloaded'):
         # the environment of the earlier run was unpickled (Env.from_file): same path through
         # __getstate__ / __setstate__ (a privately loaded class cannot be pickled by reference)
